@@ -271,6 +271,43 @@ def run(ck):
                 sys.modules["mpi4py"] = had_mpi
     except Exception as e:
         ck.fail("raises:allreduce-setup", "setting up the stand-in communicator raised %r" % (e,), {})
+    # ---- nested parallel regions (library routines open their own region inside the user's): after the inner one is closed the outer region
+    # distributes as before, and the level is back to zero at the end ------------------------------------------------------------------
+    saved_d = dict(cfg.__dict__)
+    try:
+        class _Comm:
+            def Barrier(self_):
+                pass
+        for size in (2, 3, 5):
+            for depth_in in (1, 2):
+                blocks = []
+                levels = []
+                for rank in range(size):
+                    cfg.__dict__.clear(); cfg.__dict__.update(saved_d)
+                    cfg.have_mpi = True; cfg.size = size; cfg.rank = rank; cfg.comm = _Comm(); cfg.parallel_level = 0; cfg.parallel_region = 0
+                    par.start_parallel_region()
+                    first = list(par.block_distributed_range(0, 11))
+                    for _ in range(depth_in):
+                        par.start_parallel_region()
+                    inner = list(par.block_distributed_range(0, 4))            # nested: not distributed again
+                    for _ in range(depth_in):
+                        par.close_parallel_region()
+                    levels.append(int(cfg.parallel_level))
+                    blocks.append(list(par.block_distributed_range(0, 11)))
+                    par.close_parallel_region()
+                    levels.append(int(cfg.parallel_level))
+                    if inner != list(range(4)) or first != blocks[-1]:
+                        ck.fail("nested-regions:blocks", "a nested region is distributed again / the outer region hands out another block after a nested region was closed",
+                                {"size": size, "rank": rank, "nested_depth": depth_in}, [first, inner, blocks[-1]])
+                ck.case(("nested-regions", size, depth_in), nontrivial=True, kind="api:nested-regions", size=size)
+                flat = [x for b in blocks for x in b]
+                if flat != list(range(11)) or set(levels) != {0, 1} or levels[0::2] != [1] * size:
+                    ck.fail("nested-regions:level", "after a nested parallel region was closed the outer region no longer distributes its range over the processes "
+                            "(or the nesting level is not back where it was)", {"size": size, "nested_depth": depth_in}, [blocks, levels], [list(range(11)), "levels 1 then 0"])
+    except Exception as e:
+        ck.fail("raises:nested-regions", "nested parallel regions raised %r" % (e,), {})
+    finally:
+        cfg.__dict__.clear(); cfg.__dict__.update(saved_d)
     # ---- the library's own distributed loops: every simulated process reproduces the serial result -----------------------
     # (mpi4py is absent: the processes are run one after the other; the buffers of the k-th reduction are collected in pass k
     # and handed to all processes in pass k+1, until no reduction is left open)
